@@ -464,6 +464,37 @@ where
                 for e in bad {
                     self.illformed(h, lin, sc, e);
                 }
+                // the same second invocation arriving through the on_invret helper
+                if in_flight[t as usize] {
+                    for o in 0..self.def.ops.len() {
+                        let (mut l, mut s) = (lin.clone(), sc.clone());
+                        let ok_l = l.on_invret(t, self.def.ops[o].clone(), self.def.rets[0].clone()).is_ok();
+                        let ok_s = s.on_invret(t, self.def.ops[o].clone(), self.def.rets[0].clone()).is_ok();
+                        {
+                            let mut r = self.shared.lock().unwrap();
+                            r.evaluations += 1;
+                            r.nontrivial += 1;
+                            r.traces += 1;
+                        }
+                        let c08 = self.which == "C08";
+                        let mut hh = h.to_vec();
+                        hh.push(Ev::Inv(t, o));
+                        if (c08 && (ok_l || l.is_consistent() || l.serialized_history().is_some())) || (!c08 && (ok_s || s.is_consistent() || s.serialized_history().is_some())) {
+                            self.violation("illformed-invret-accepted", format!("on_invret for thread {t}, which has an operation in flight, was accepted or left the tester consistent"), &hh);
+                        }
+                        // and it stays rejected
+                        for e1 in self.all_events() {
+                            let (mut l1, mut s1) = (l.clone(), s.clone());
+                            let a = Self::apply_lin(&mut l1, self.def, &e1);
+                            let b = Self::apply_sc(&mut s1, self.def, &e1);
+                            if (c08 && (a || l1.is_consistent())) || (!c08 && (b || s1.is_consistent())) {
+                                let mut h2 = hh.clone();
+                                h2.push(e1);
+                                self.violation("illformed-recovers", format!("after an ill-formed on_invret, {:?} was accepted or the tester became consistent again", e1), &h2);
+                            }
+                        }
+                    }
+                }
             }
         }
     }
